@@ -143,6 +143,183 @@ fn epoch_violations(pre: &MetaStore, post: &MetaStore, limits: &[u64]) -> Vec<St
     out
 }
 
+fn balanced_violations(store: &MetaStore, cluster: &str, owning_chunks: usize) -> Vec<String> {
+    let mut out = vec![];
+    let name = ClusterName::try_from(cluster).expect("cluster name");
+    let c = match store.clusters.get(&name) {
+        Some(c) => c,
+        None => return vec!["C10/cluster-missing".to_string()],
+    };
+    let m = owning_chunks * 2;
+    let avg = SLOT_NUM / m;
+    let rem = SLOT_NUM % m;
+    for (ci, ch) in c.chunks.iter().enumerate() {
+        for part in 0..2 {
+            let h = ci * 2 + part;
+            if !ch.migrating_slots[part].is_empty() {
+                out.push("C10/pending-migration-left".to_string());
+            }
+            match &ch.stable_slots[part] {
+                Some(sr) if h < m => {
+                    let n = sr.get_range_list().get_slots_num();
+                    if n != avg + if h < rem { 1 } else { 0 } {
+                        out.push(format!("C10/unbalanced half={} slots={}", h, n));
+                    }
+                    let rs = sr.get_range_list().get_ranges();
+                    for w in rs.windows(2) {
+                        if w[0].end() + 1 >= w[1].start() {
+                            out.push("C10/not-compact".to_string());
+                        }
+                    }
+                }
+                Some(_) => out.push(format!("C10/trailing-chunk-owns-slots half={}", h)),
+                None if h < m => out.push(format!("C10/owning-half-empty half={}", h)),
+                None => (),
+            }
+        }
+    }
+    out
+}
+
+fn host_violations(pre: &MetaStore, post: &MetaStore, opname: &str) -> Vec<String> {
+    // chunks created by cluster creation / scale-out span two hosts (allocation algorithm only, not ordered mode)
+    let mut out = vec![];
+    if post.enable_ordered_proxy || !(opname == "add_cluster" || opname == "auto_add_nodes" || opname == "auto_scale_up_nodes") {
+        return out;
+    }
+    for (name, c) in post.clusters.iter() {
+        let before = pre.clusters.get(name).map(|c| c.chunks.len()).unwrap_or(0);
+        for ch in c.chunks.iter().skip(before) {
+            if ch.hosts[0] == ch.hosts[1] {
+                out.push(format!("C12/chunk-on-one-host {:?}", ch.proxy_addresses));
+            }
+        }
+    }
+    out
+}
+
+fn replacement_violations(pre: &MetaStore, post: &MetaStore, failed: &str, result: &str) -> Vec<String> {
+    let mut out = vec![];
+    let cluster = match pre.all_proxies.get(failed).and_then(|p| p.cluster.clone()) {
+        Some(c) => c,
+        None => return out,
+    };
+    let mut partner_host = None;
+    if let Some(c) = pre.clusters.get(&cluster) {
+        for ch in c.chunks.iter() {
+            if ch.proxy_addresses[0] == failed {
+                partner_host = Some(ch.hosts[1].clone());
+            } else if ch.proxy_addresses[1] == failed {
+                partner_host = Some(ch.hosts[0].clone());
+            }
+        }
+    }
+    let partner_host = match partner_host {
+        Some(h) => h,
+        None => return out,
+    };
+    let candidates: Vec<&ProxyResource> = pre
+        .all_proxies
+        .values()
+        .filter(|p| p.cluster.is_none() && !pre.failed_proxies.contains(&p.proxy_address) && !pre.failures.contains_key(&p.proxy_address) && p.host != partner_host)
+        .collect();
+    if candidates.is_empty() {
+        return out;
+    }
+    // which proxy replaced the failed one?
+    let mut replacement = None;
+    if let (Some(c0), Some(c1)) = (pre.clusters.get(&cluster), post.clusters.get(&cluster)) {
+        for (a, b) in c0.chunks.iter().zip(c1.chunks.iter()) {
+            for i in 0..2 {
+                if a.proxy_addresses[i] == failed && b.proxy_addresses[i] != failed {
+                    replacement = Some((b.proxy_addresses[i].clone(), b.hosts[i].clone()));
+                }
+            }
+        }
+    }
+    match replacement {
+        None => out.push(format!("C12/no-replacement-although-free-proxy-on-other-host result={} candidates={:?}", result, candidates.iter().map(|p| &p.proxy_address).collect::<Vec<_>>())),
+        Some((addr, host)) => {
+            if host == partner_host {
+                out.push(format!("C12/replacement-on-partner-host replacement={} candidates={:?}", addr, candidates.iter().map(|p| &p.proxy_address).collect::<Vec<_>>()));
+            }
+        }
+    }
+    out
+}
+
+fn failover_violations(pre: &MetaStore, post: &MetaStore, cluster: &str, victim: &str) -> Vec<String> {
+    let mut out = vec![];
+    let (a, b) = match (pre.get_cluster_by_name(cluster, 0), post.get_cluster_by_name(cluster, 0)) {
+        (Some(a), Some(b)) => (a, b),
+        _ => return out,
+    };
+    let lists = |n: &Node, importing: bool| -> Vec<(usize, usize)> {
+        n.get_slots()
+            .iter()
+            .filter(|sr| matches!(sr.tag, SlotRangeTag::Importing(_)) == importing)
+            .flat_map(|sr| sr.get_range_list().get_ranges().iter().map(|r| (r.start(), r.end())).collect::<Vec<_>>())
+            .collect()
+    };
+    for importing in [false, true] {
+        for n in a.get_nodes().iter().filter(|n| n.get_role() == Role::Master) {
+            let exp = if n.get_proxy_address() == victim {
+                n.get_repl_meta().get_peers().get(0).map(|p| p.node_address.clone()).unwrap_or_default()
+            } else {
+                n.get_address().to_string()
+            };
+            let after = b.get_nodes().iter().find(|m| m.get_address() == exp).map(|m| lists(m, importing)).unwrap_or_default();
+            for (s0, e0) in lists(n, importing) {
+                for slot in s0..=e0 {
+                    if !after.iter().any(|(x, y)| *x <= slot && slot <= *y) {
+                        out.push(format!("C06/{}-changed-wrongly slot={} expected-node={}", if importing { "importer" } else { "owner" }, slot, exp));
+                        break;
+                    }
+                }
+            }
+        }
+    }
+    for n in b.get_nodes() {
+        if n.get_proxy_address() == victim && n.get_role() == Role::Master {
+            out.push("C06/master-left-on-failed-proxy".to_string());
+        }
+        if n.get_role() == Role::Master {
+            let peers = n.get_repl_meta().get_peers();
+            let ok = peers.len() == 1
+                && b.get_nodes().iter().any(|m| {
+                    m.get_address() == peers[0].node_address
+                        && m.get_role() == Role::Replica
+                        && m.get_proxy_address() == peers[0].proxy_address
+                        && m.get_proxy_address() != n.get_proxy_address()
+                        && m.get_repl_meta().get_peers().len() == 1
+                        && m.get_repl_meta().get_peers()[0].node_address == n.get_address()
+                });
+            if !ok {
+                out.push(format!("C06/peer-records-inconsistent node={}", n.get_address()));
+            }
+        }
+    }
+    let metas = |c: &crate::common::cluster::Cluster| -> Vec<SlotRange> {
+        c.get_nodes().iter().flat_map(|n| n.get_slots().iter().cloned().collect::<Vec<_>>()).filter(|sr| sr.tag != SlotRangeTag::None).collect()
+    };
+    for sr in metas(&a) {
+        let twin = metas(&b).into_iter().find(|t| t.range_list == sr.range_list && t.tag.is_migrating() == sr.tag.is_migrating());
+        match (twin, sr.tag.get_migration_meta()) {
+            (Some(t), Some(m0)) => {
+                let m1 = t.tag.get_migration_meta().expect("meta");
+                let same = m0.src_proxy_address == m1.src_proxy_address && m0.src_node_address == m1.src_node_address
+                    && m0.dst_proxy_address == m1.dst_proxy_address && m0.dst_node_address == m1.dst_node_address;
+                if !same && m1.epoch <= a.get_epoch() {
+                    out.push(format!("C06/readdressed-migration-keeps-old-epoch ranges={} epoch {}->{} cluster-epoch-before={}", sr.range_list, m0.epoch, m1.epoch, a.get_epoch()));
+                }
+            }
+            (None, _) => out.push("C06/migration-lost".to_string()),
+            _ => (),
+        }
+    }
+    out
+}
+
 fn s(v: &Value) -> String {
     v.as_str().expect("string arg").to_string()
 }
@@ -206,8 +383,19 @@ fn verif_replay() {
     let empty = vec![];
     let ops = spec["ops"].as_array().unwrap_or(&empty);
     let mut step = 0;
-    let check = |pre: Option<&MetaStore>, post: &MetaStore, step: usize, opname: &str| {
+    let check = |pre: Option<&MetaStore>, post: &MetaStore, step: usize, opname: &str, op: &Value, result: &str| {
         let mut v = vec![];
+        if let Some(pre) = pre {
+            if has("hosts") {
+                v.extend(host_violations(pre, post, opname));
+            }
+            if has("failover") && opname == "replace_failed_proxy" {
+                v.extend(failover_violations(pre, post, &cluster, op["args"][0].as_str().unwrap_or("")));
+            }
+            if has("replacement") && opname == "replace_failed_proxy" {
+                v.extend(replacement_violations(pre, post, op["args"][0].as_str().unwrap_or(""), result));
+            }
+        }
         if has("partition") {
             v.extend(partition_violations(post, &cluster, &limits));
         }
@@ -223,19 +411,42 @@ fn verif_replay() {
             println!("VERIF-REPLAY: violated {} [step {} {}]", x, step, opname);
         }
     };
-    check(None, &store, 0, "initial");
+    check(None, &store, 0, "initial", &Value::Null, "");
     for op in ops {
         step += 1;
         let pre = store.clone();
         let res = std::panic::catch_unwind(std::panic::AssertUnwindSafe(|| apply(&mut store, op)));
-        match res {
-            Ok(r) => println!("VERIF-REPLAY: op {} {} -> {}", step, op["op"], r),
+        let result = match res {
+            Ok(r) => {
+                println!("VERIF-REPLAY: op {} {} -> {}", step, op["op"], r);
+                r
+            }
             Err(_) => {
                 println!("VERIF-REPLAY: violated no-panic [step {} {}]", step, op["op"]);
                 break;
             }
+        };
+        if has("unchanged-on-error") && result.starts_with("Err") {
+            let same = serde_json::to_value(&pre.clusters).ok() == serde_json::to_value(&store.clusters).ok()
+                && serde_json::to_value(&pre.all_proxies).ok() == serde_json::to_value(&store.all_proxies).ok()
+                && pre.failed_proxies == store.failed_proxies
+                && serde_json::to_value(&pre.failures).ok() == serde_json::to_value(&store.failures).ok();
+            if !same {
+                println!("VERIF-REPLAY: violated C12/refused-request-changed-store [step {} {}]", step, op["op"]);
+            }
         }
-        check(Some(&pre), &store, step, op["op"].as_str().unwrap_or(""));
+        check(Some(&pre), &store, step, op["op"].as_str().unwrap_or(""), op, &result);
+    }
+    if let Some(n) = spec["final_balanced_chunks"].as_u64() {
+        for x in balanced_violations(&store, &cluster, n as usize) {
+            println!("VERIF-REPLAY: violated {} [final]", x);
+        }
+    }
+    if let Some(n) = spec["final_chunk_count"].as_u64() {
+        let name = ClusterName::try_from(cluster.as_str()).expect("cluster name");
+        if store.clusters.get(&name).map(|c| c.chunks.len()) != Some(n as usize) {
+            println!("VERIF-REPLAY: violated C10/free-chunks-not-released [final]");
+        }
     }
     println!("VERIF-REPLAY: done");
 }
